@@ -23,7 +23,8 @@ def log(*a):
 
 
 def workdir(name):
-    d = os.path.join(WORK, name)
+    # unique per process: two checks may run at the same time
+    d = os.path.join(WORK, "%s.%d" % (name, os.getpid()))
     shutil.rmtree(d, ignore_errors=True)
     os.makedirs(d, exist_ok=True)
     return d
